@@ -22,6 +22,11 @@ func round2Hooks(c *Ctx, id string) {
 	round2Hooks7(c, id)
 	round2Hooks8(c, id)
 	round2Hooks9(c, id)
+	round3Hooks(c, id)
+	round3bHooks(c, id)
+	round3cHooks(c, id)
+	round3dHooks(c, id)
+	round3eHooks(c, id)
 	switch id {
 	case "C01":
 		sharedDeleteExact(c, "C01.g shared-delete-exact")
